@@ -332,7 +332,7 @@ static std::string do_run_interactive(Context& ctx, const std::string& text, boo
 }
 
 /* parse + run through the C API */
-static std::string do_run_capi(Context& ctx, const std::string& text, bool withpos)
+static std::string do_run_capi(Context& ctx, const std::string& text, bool withpos, bool exec2 = false)
 {
   bloc_context * c = reinterpret_cast<bloc_context*>(&ctx);
   bloc_parsing_position pos = { -1, -1 };
@@ -346,7 +346,7 @@ static std::string do_run_capi(Context& ctx, const std::string& text, bool withp
       return "{\"r\":\"perr\",\"no\":" + std::to_string(bloc_errno()) + ",\"line\":" + std::to_string(pos.lno)
               + ",\"col\":" + std::to_string(pos.pno) + ",\"msg\":" + jstr(msg) + "}";
     }
-    if (bloc_execute(x))
+    if (exec2 ? bloc_execute2(c, x) : bloc_execute(x))
     {
       out = "{\"r\":\"ok\"";
       if (ctx.returnCondition()) { out += ",\"rc\":1"; bloc_reset_stop(c); }
@@ -893,12 +893,13 @@ static std::string run_op(const std::vector<std::string>& a)
   if (op == "budget") { g_budget = atol(a[1].c_str()); return "{\"r\":\"ok\"}"; }
   if (op == "run")
   {
-    /* run <ctx> <route> <text> ; route: cpp | cpp:<readerspec> | capi | capipos */
+    /* run <ctx> <route> <text> ; route: cpp | cpp:<readerspec> | capi | capipos | capi2 (bloc_execute2) */
     Context * c = ctx_of(a[1]);
     if (!c) return "{\"r\":\"noctx\"}";
     std::string text = hexdec(a[3]);
     if (a[2] == "capi") return do_run_capi(*c, text, false);
     if (a[2] == "capipos") return do_run_capi(*c, text, true);
+    if (a[2] == "capi2") return do_run_capi(*c, text, false, true);
     if (a[2] == "istmt") return do_run_interactive(*c, text, false);
     if (a[2] == "istmt2") return do_run_interactive(*c, text, true);
     std::string rs = "s";
